@@ -28,6 +28,22 @@ pub fn agree<F: Family>(b: &[u8], origin: &str, ctx: &mut Ctx) -> CaseResult {
     let mut r: &[u8] = b;
     let ha = futures_lite::future::block_on(F::header_decode_async(&mut r));
     ensure!(hb == ha, "Header::decode returned {:?} but Header::decode_async returned {:?} on {}", hb, ha, hex_short(b, 16));
+    // the other two ways to a bare fixed header: Header::new_with(first byte, remaining length) and, for an accepted
+    // header, Header::new from its parts; the parts are what the first byte spells (type, dup, QoS, retain)
+    if let Ok((_, rl)) = refdec::frame_bounds(b) {
+        let hn = F::header_new_with(b[0], rl as u32);
+        ensure!(hn == hb, "Header::new_with({:#04x}, {}) returned {:?} but Header::decode returned {:?} on {}", b[0], rl, hn, hb, hex_short(b, 16));
+        if let Ok(h) = &hb {
+            let parts = F::header_parts(h);
+            let is_publish = b[0] >> 4 == 3;
+            let want = (b[0] >> 4, is_publish && b[0] & 8 != 0, if is_publish { (b[0] >> 1) & 3 } else { 0 }, is_publish && b[0] & 1 != 0, rl as u32);
+            ensure!(parts == want, "Header::decode({}) carries (type, dup, qos, retain, remaining length) = {:?}; the bytes spell {:?}", hex_short(b, 8), parts, want);
+            ensure!(F::header_new(parts).as_ref() == Some(h), "Header::new{:?} = {:?} differs from the decoded header {:?}", parts, F::header_new(parts), h);
+            ctx.label("bare-header:accepted");
+        } else {
+            ctx.label("bare-header:rejected");
+        }
+    }
 
     // on a string that starts with a complete frame the strict decoder is the reference
     let mut class = "no-complete-frame".to_string();
@@ -159,6 +175,10 @@ pub fn run(env: &mut Env) -> RunResult {
         for o in corpus::ORIGINS {
             env.require(s, &format!("origin:{}", o));
         }
+    }
+    for s in ["c06.agree.v3", "c06.agree.v5", "c06.short-frames.v3", "c06.short-frames.v5"] {
+        env.require(s, "bare-header:accepted");
+        env.require(s, "bare-header:rejected");
     }
     env.require("c06.agree.v5", "poll-reject:InvalidPropertyId");
     env.require("c06.agree.v5", "poll-reject:DuplicatedProperty");
